@@ -79,7 +79,7 @@ def repeated(rrs):
     return None
 
 
-def net_oracle(case, impl):
+def net_oracle(case, impl, stats=None):
     """C10 on the implementation's output of one network-mode case.  Every question: the resolution completes
     (the driver survives: no hang, no stack overflow), within 60 s of virtual time.  Every successful reply: no record
     twice; for a question type other than CNAME/ANY the records satisfy chain_ok.  In forwarding mode the last two are
@@ -98,12 +98,17 @@ def net_oracle(case, impl):
             return None
         results, _ = parsed
         fwd = c.forwarder()
+
+        def count(k):
+            if stats is not None:
+                stats[k] = stats.get(k, 0) + 1
         for (qn, qt, qc), r in zip(c.questions, results):
             what = "%s type %d" % (rg.tokname(qn), qt)
             if r.kind in ("Panic", "OutOfFuel"):
                 return ("panic", "%s: the resolver panicked" % what)
             if r.elapsed > 60001:
                 return ("over-budget", "%s: took %d ms of virtual time" % (what, r.elapsed))
+            count("completed within 60 s: " + ("answers" if r.kind in ("A", "N", "X") else "errors"))
             if r.kind not in ("A", "N"):
                 continue
             if fwd is not None:
@@ -116,7 +121,12 @@ def net_oracle(case, impl):
                     if ans is not None and (repeated(ans) or rg.chain_ok(e.qname, e.qtype, ans)):
                         ordered = False
                 if not ordered:
+                    count("forwarding: not judged, the forwarder's own answer repeats or is out of order")
                     continue
+            if qt not in (CNAME, ANY):
+                k = sum(1 for x in r.rrs if tok.parse_rr(x)["type"] == CNAME)
+                count("chain_ok judged (%s): %s" % ("forwarding" if fwd else "recursive",
+                                                    "no alias" if k == 0 else "1-3 links" if k <= 3 else "4-31 links" if k < 32 else "32+ links"))
             x = repeated(r.rrs)
             if x:
                 return ("repeated-record", "%s: the reply holds %s twice" % (what, x))
